@@ -487,4 +487,29 @@ def check(facts):
             r.fail(key, "; ".join(probs), facts.loc(fn))
         else:
             r.ok(key, "a prefilter hit is only a candidate: the reported start is where try_at_pos(ip 0) succeeded; retry advances by one char")
+    # the PikeVM's unanchored loop: after a failed attempt the next start is next_right_pos of the position just attempted — not of a
+    # position computed by looking ahead (a "this run was already covered" skip forgets that a backreference makes the rest of the
+    # match depend on where the attempt started)
+    from . import backref as _br2
+    for fn2 in sorted(n_ for n_ in facts.body_names() if n_.startswith("<pikevm::PikeVMExecutor") and n_.endswith("MatchProducer>::next_match")):
+        b2 = facts.body(fn2)
+        k2 = 0
+        for bb, t in b2.iter_calls():
+            if not (t.get("callee") or "").endswith("InputIndexer::next_right_pos") or len(t["args"]) < 2:
+                continue
+            k2 += 1
+            key2 = "%s retry #%d steps from the attempted position" % (fn2, k2)
+            a_ = t["args"][1]
+            odd2 = set()
+            if a_.get("k") in ("copy", "move"):
+                for s_ in _br2.value_sources(b2, b2.root_of(a_["pl"]["l"])[0]):
+                    if s_[0] in ("call", "outcome") and len(s_) > 1 and s_[1].split("::")[-1] not in (
+                            "next_right_pos", "branch", "from_residual", "from_output", "offset_to_pos", "left_end", "clone"):
+                        odd2.add(s_[1].split("::")[-1])
+            if odd2:
+                r.fail(key2, "after a failed attempt the PikeVM resumes from next_right_pos of a position that comes from %s (line %s), not of "
+                             "the position it just tried: start offsets are skipped, and with a backreference an attempt from a skipped "
+                             "offset can succeed (`(x*)y\\1` on \"xxyx\")" % (sorted(odd2), t.get("line")), facts.loc(fn2, t.get("line")))
+            else:
+                r.ok(key2)
     return r
